@@ -64,6 +64,9 @@ var c20Keys = []string{
 	// characters that mean something to a regular expression / a format string / a shell
 	`Kq7(xP2+mZ9-w4Tn`,
 	`*st[ar]{2,}|^$.?%s%d%!x\`,
+	// very short keys (legal for the CLI, however supplied): anything that shows "only the last four
+	// characters" or pads to a minimum width shows all of them
+	`Zq7!`, "§¶", `~Zq^7`,
 }
 
 var c20Pubs = []string{"pubKEYzq7", "pub:colon@x"}
@@ -73,7 +76,7 @@ var c20Supplies = []string{"flags", "flags-equals-form", "env", "pub-flag+priv-e
 func c20Needles(pub, priv string) map[string]string {
 	n := map[string]string{}
 	add := func(what, v string) {
-		if len(v) >= 6 {
+		if len(v) >= 4 {
 			if _, dup := n[v]; !dup {
 				n[v] = what
 			}
